@@ -33,6 +33,16 @@ Summary == [hist |-> hist, durable |-> Durable, used |-> used, res |-> res, ops 
 \* violated by (and prints) a shortest complete behaviour in which exactly the deviations WantUsed caused a loss
 NoWitness == ~(Terminal /\ ~Durable /\ used = WantUsed /\ PrintT(ToJson(Summary)))
 
+\* disabled-action probes: shortest behaviours into a state in which the specification does NOT allow a step the
+\* code could be tempted to take; the driver fires that step on the real code and must see it block.
+\*   summon: the swamp is in the map with its closing flag up (a Destroy is draining) and r2 has not called yet:
+\*           RSummon(r2) is disabled - SummonSwamp must wait in WaitForGracefulClose
+\*   drain:  a Destroy stands before its vigil drain while another request holds a vigil: RDDrain is disabled
+ProbeSummon == /\ pc["r2"] = "idle" /\ pc["r1"] = "d_drain" /\ map # 0 /\ I[map].closing = 1 /\ ~I[map].cancelled
+ProbeDrain  == /\ pc["r1"] = "d_drain" /\ I[ref["r1"]].vigils > 0 /\ pc["r2"] = "op" /\ ref["r2"] = ref["r1"]
+NoProbeSummon == ~(ProbeSummon /\ PrintT(ToJson(Summary)))
+NoProbeDrain  == ~(ProbeDrain /\ PrintT(ToJson(Summary)))
+
 \* simulation: print every complete behaviour (always true)
 ExportTerminal == Terminal => PrintT(ToJson(Summary))
 =============================================================================
